@@ -181,7 +181,7 @@ void register_c09(std::vector<Profile>& v)
   p.stub_components = {"recording sink", "clock (virtual)", "scheduling (simulator)"};
   p.assumptions = {"a statement's encoded size is 44 bytes + payload for the harness call site (checked against quill's own size assert)",
                    "liveness verdict = still inside the log call after 1.5 M fair round-robin steps with time advancing"};
-  p.quick_runs = 2000;
+  p.quick_runs = 12000;
   p.thorough_runs = 300000;
   v.push_back(p);
 }
